@@ -28,6 +28,50 @@ def strip_widening(e):
     return e
 
 
+def _is_const(e):
+    while e.k == 'cast':
+        e = e.a[2]
+    return e.k == 'const'
+
+
+def _is_not_flag(cnd, field):
+    """`!flag`, `flag == false`, `false == flag`, `flag != true`"""
+    while cnd.k == 'cast' or (cnd.k == 'un' and cnd.a[0] == 'bool'):
+        cnd = cnd.a[-1]
+    if cnd.k == 'un' and cnd.a[0] == '!':
+        x = cnd.a[1]
+        while x.k == 'cast' or (x.k == 'un' and x.a[0] == 'bool'):
+            x = x.a[-1]
+        return path_of(x) == field
+    if cnd.k == 'bin' and cnd.a[0] in ('==', '!='):
+        for x, y in ((cnd.a[1], cnd.a[2]), (cnd.a[2], cnd.a[1])):
+            while x.k == 'cast' or (x.k == 'un' and x.a[0] == 'bool'):
+                x = x.a[-1]
+            while y.k == 'cast':
+                y = y.a[2]
+            if path_of(x) == field and y.k == 'const':
+                return (cnd.a[0] == '==') == (not y.a[0])
+    return False
+
+
+def _increment(s):
+    """the positive constant c of `x += c` / `x = x + c` / `x = c + x`, else None"""
+    v = s.a[1]
+    while v.k == 'cast':
+        v = v.a[2]
+    if s.a[2] == '+=' and v.k == 'const':
+        return v.a[0]
+    if s.a[2] == '=' and v.k == 'bin' and v.a[0] == '+':
+        for x, y in ((v.a[1], v.a[2]), (v.a[2], v.a[1])):
+            while x.k == 'cast':
+                x = x.a[2]
+            while y.k == 'cast':
+                y = y.a[2]
+            if path_of(x) == path_of(s.a[0]) and y.k == 'const':
+                return y.a[0]
+    return None
+
+
 def run(cfg):
     R = Report('C13', cfg)
     lib = cxx.load_lib(cfg)
@@ -57,6 +101,9 @@ def run(cfg):
         c = c.a[2]
     ok, why = False, 'loop condition is %s' % show(cond)
     thr = None
+    if c.k == 'bin' and c.a[0] in ('<=', '<') and _is_const(c.a[1]):
+        # `1000 <= diff` is `diff >= 1000`
+        c = E('bin', {'<=': '>=', '<': '>'}[c.a[0]], c.a[2], c.a[1], loc=c.loc, ty=c.ty)
     if c.k == 'bin' and c.a[0] in ('>=', '>'):
         lhs = strip_widening(c.a[1])
         rhs = c.a[2]
@@ -85,24 +132,21 @@ def run(cfg):
     # R2 step pairing
     step_ms = step_s = None
     for s in lp.a[4]:
-        if s.k == 'assign' and s.a[2] == '+=':
+        if s.k == 'assign':
             p = path_of(s.a[0])
-            v = s.a[1]
-            while v.k == 'cast':
-                v = v.a[2]
-            if v.k == 'const':
+            inc = _increment(s)
+            if inc is not None:
                 if p == 'this.mPrevMillis':
-                    step_ms = v.a[0]
+                    step_ms = inc
                 elif p == 'this.mEpochSeconds':
-                    step_s = v.a[0]
+                    step_s = inc
     ob('R2', g.name + ':step', lp.loc, thr is not None and step_ms == thr and step_s is not None and step_ms == 1000 * step_s,
        'threshold %r ms, mPrevMillis += %r, mEpochSeconds += %r: expected threshold == step == 1000 * seconds' % (thr, step_ms, step_s))
     # R3 guards
     first = g.body[0] if g.body else None
     okg = False
     if first is not None and first.k == 'if':
-        cnd = first.a[0]
-        neg = cnd.k == 'un' and cnd.a[0] == '!' and path_of(cnd.a[1].a[1] if cnd.a[1].k == 'un' else cnd.a[1]) == 'this.mIsInit'
+        neg = _is_not_flag(first.a[0], 'this.mIsInit')
         ret = first.a[1] and first.a[1][0].k == 'return'
         if neg and ret:
             v = first.a[1][0].a[0]
@@ -209,10 +253,8 @@ def run(cfg):
             for s in walk_stmts(f.body):
                 if s.k == 'assign' and path_of(s.a[0]) == 'this.mEpochSeconds':
                     n += 1
-                    v = s.a[1]
-                    while v.k == 'cast':
-                        v = v.a[2]
-                    if not (s.a[2] == '+=' and v.k == 'const' and v.a[0] > 0):
+                    inc = _increment(s)
+                    if not (inc is not None and inc > 0):
                         okm, whym = False, '%s writes mEpochSeconds with %s %s at %s' % (f.name, s.a[2], show(s.a[1]), s.loc)
     ob('R5', SC + '::mEpochSeconds', 'src/ace_time/clock/SystemClock.h', okm and n >= 1, whym or 'no increment of mEpochSeconds found')
     return R
@@ -232,4 +274,16 @@ SELFTEST = [
          find=r'      if \(mEpochSeconds == epochSeconds\) \{\n(?:        //.*\n)*        mPrevMillis = clockMillis\(\);\n        return;\n      \}\n',
          replace='      if (mEpochSeconds == epochSeconds) return;\\n', rule='R4'),
     dict(id='seconds-decremented', file='src/ace_time/clock/SystemClock.h', find='        mEpochSeconds += 1;', replace='        mEpochSeconds -= 1;', rule='R'),
+    dict(id='seconds-step-spelled-out-negative', file='src/ace_time/clock/SystemClock.h', find='        mEpochSeconds += 1;', replace='        mEpochSeconds = mEpochSeconds - 1;', rule='R'),
+    # behaviour-preserving rewrites: the rules must stay quiet
+    dict(id='init-guard-compared-to-false-silent', file='src/ace_time/clock/SystemClock.h', find='      if (!mIsInit) return kInvalidSeconds;\n', replace='      if (mIsInit == false) return kInvalidSeconds;\n', expect='silent'),
+    dict(id='loop-test-operands-swapped-silent', file='src/ace_time/clock/SystemClock.h',
+         find='while ((uint16_t) ((uint16_t) clockMillis() - mPrevMillis) >= 1000) {', replace='while (1000 <= (uint16_t) ((uint16_t) clockMillis() - mPrevMillis)) {', expect='silent'),
+    dict(id='loop-test-strict-silent', file='src/ace_time/clock/SystemClock.h',
+         find='while ((uint16_t) ((uint16_t) clockMillis() - mPrevMillis) >= 1000) {', replace='while ((uint16_t) ((uint16_t) clockMillis() - mPrevMillis) > 999) {', expect='silent'),
+    dict(id='seconds-step-spelled-out-silent', file='src/ace_time/clock/SystemClock.h', find='        mEpochSeconds += 1;', replace='        mEpochSeconds = mEpochSeconds + 1;', expect='silent'),
+    dict(id='sentinel-test-operands-swapped-silent', file='src/ace_time/clock/SystemClock.h',
+         find='      if (epochSeconds == kInvalidSeconds) return;\n      mLastSyncTime = epochSeconds;', replace='      if (kInvalidSeconds == epochSeconds) return;\n      mLastSyncTime = epochSeconds;', expect='silent'),
+    dict(id='accept-statements-reordered-silent', file='src/ace_time/clock/SystemClock.h',
+         find='      mEpochSeconds = epochSeconds;\n      mPrevMillis = clockMillis();\n      mIsInit = true;', replace='      mIsInit = true;\n      mPrevMillis = clockMillis();\n      mEpochSeconds = epochSeconds;', expect='silent'),
 ]
